@@ -337,6 +337,10 @@ func (q *Seq) Exec(op SOp) bool {
 		if !q.sendGated(s, idx, r, what, msg) {
 			return true
 		}
+		if q.callReqs == nil {
+			q.callReqs = map[int][]wamp.ID{}
+		}
+		q.callReqs[idx] = append(q.callReqs[idx], req)
 		exp, call := m.Call(idx, req, msg.Options, string(msg.Procedure), modelArgs, modelKw)
 		if call != nil {
 			c.Probe("call_routed")
@@ -804,6 +808,20 @@ func (q *Seq) pickInv(r *SeqRealm, idx int, op SOp) (int, wamp.ID) {
 }
 
 func (q *Seq) pickCall(r *SeqRealm, idx int, op SOp) wamp.ID {
+	if op.Var == 4 {
+		// a CANCEL that names a finished (answered, refused, timed out, cancelled) call of its own
+		var past []wamp.ID
+		for _, id := range q.callReqs[idx] {
+			if r.M.callByReq(idx, id) == nil {
+				past = append(past, id)
+			}
+		}
+		if len(past) > 0 {
+			q.C.Probe("cancel_finished_call")
+			return past[op.K%len(past)]
+		}
+		return wamp.ID(666000 + op.K)
+	}
 	if op.Var == 3 {
 		if o := q.otherRealm(r, op.K); o != nil {
 			for _, c := range o.M.Calls {
